@@ -15,7 +15,7 @@
 (*            del : ReadTree | AddPack ReadHead AddCommit LockRef CheckRef  *)
 (*                  MoveRef                                                 *)
 (*  vdir      put : Scan Etag | WriteTmp Rename      del : Etag | Remove    *)
-(*            set-property: WriteCfg (in place, two halves)                 *)
+(*            set-property: WriteTmp Rename (of the metadata file)          *)
 (*  git       set-property (versioned .xandikos) = tree/bare put of the     *)
 (*            reserved name CfgName                                         *)
 (*                                                                          *)
@@ -125,7 +125,7 @@ Start(p) ==
     /\ Goto(p, CASE Op(p).t = "del" /\ Kind = "tree" -> "readfile"
                  [] Op(p).t = "del" /\ Kind = "bare" -> "readtree"
                  [] Op(p).t = "del"                  -> "etag"
-                 [] Op(p).t = "cfg" /\ Kind = "vdir" -> "wcfg0"
+                 [] Op(p).t = "cfg" /\ Kind = "vdir" -> "wtmp"
                  [] Op(p).t = "cfg" /\ Kind = "tree" -> "lockindex"
                  [] Op(p).t = "cfg"                  -> "readtree"
                  [] OTHER                            -> "scan")
@@ -317,17 +317,9 @@ RemoveVdir(p) ==
          THEN work' = Drop(work, Op(p).n) /\ Finish(p, "ok")
          ELSE Finish(p, "NoSuchItem") /\ UNCHANGED work
     /\ UNCHANGED <<objs, ref, refLock, index, indexLock, tmp, loc>>
-\* vdir metadata is rewritten in place
-WriteCfg0(p) ==
-    /\ pc[p] = "wcfg0"
-    /\ work' = Upd(work, CfgName, Torn)
-    /\ Goto(p, "wcfg1")
-    /\ UNCHANGED <<objs, ref, refLock, index, indexLock, tmp, loc, opi, results>>
-WriteCfg1(p) ==
-    /\ pc[p] = "wcfg1"
-    /\ work' = Upd(work, CfgName, Op(p).b)
-    /\ Finish(p, "ok")
-    /\ UNCHANGED <<objs, ref, refLock, index, indexLock, tmp, loc>>
+\* vdir metadata (.xandikos, displayname, color) is written like a member: to a
+\* temporary file that is then renamed over the old one (since fix F-C04-1; before
+\* that it was rewritten in place, and TLC showed Opens violated).
 
 ----------------------------------------------------------------------------
 Step(p) ==
@@ -336,7 +328,7 @@ Step(p) ==
     \/ AddBlob(p) \/ RemoveWork(p) \/ AddTree(p)
     \/ ReadTree(p) \/ AddPack(p)
     \/ ReadHead(p) \/ AddCommit(p) \/ LockRef(p) \/ CheckRef(p) \/ MoveRef(p) \/ WriteIndex(p)
-    \/ WriteTmp(p) \/ Rename(p) \/ RemoveVdir(p) \/ WriteCfg0(p) \/ WriteCfg1(p)
+    \/ WriteTmp(p) \/ Rename(p) \/ RemoveVdir(p)
 
 Next == (\E p \in Proc : Step(p)) /\ UNCHANGED Prog
 Spec == Init /\ [][Next]_vars
